@@ -76,6 +76,21 @@ tx transfer(quantity: Int) {
     output deposit { to: Receiver, amount: min_utxo(change), }
     output change { to: Sender, amount: source - fees - min_utxo(change), }
 }"""
+# the only output of the template is optional and, for quantity 0, empty: the compiled body has no output at all, yet
+# the input's min_amount asks for the min_utxo of that output (position 0 of a body that holds nothing)
+SRC["optional_only_min"] = """party Sender;
+party Receiver;
+tx transfer(quantity: Int) {
+    input source { from: Sender, min_amount: fees + min_utxo(gift) + Ada(quantity), }
+    output ? gift { to: Receiver, amount: Ada(quantity), }
+}"""
+SRC["optional_last_min"] = """party Sender;
+party Receiver;
+tx transfer(quantity: Int) {
+    input source { from: Sender, min_amount: fees + min_utxo(gift) + Ada(quantity), }
+    output change { to: Sender, amount: source - fees - Ada(quantity), }
+    output ? gift { to: Receiver, amount: Ada(quantity), }
+}"""
 KIND = {"transfer": "transfer", "transfer_nofee_min": "transfer", "transfer_min": "transfer_min"}
 
 
@@ -261,6 +276,14 @@ def sweep_jobs(pp, quick, rng):
                 rounds = rng.choice([3, 3, 5])
                 jobs.append({"id": len(jobs), "cmd": "resolve", "cfg": c, "steps": [step(tn, q, split, rounds)], "compare_fresh": False})
                 heads.append(case_event([tn], q, split, c, rounds))
+        # every template at the edge quantities (nothing sent: optional outputs come out empty and are dropped; one
+        # lovelace; a negative amount), against a comfortable and a tight store
+        for tn in sorted(SRC):
+            for q2 in (0, 1, -1, q):
+                for amounts in ([50_000_000], [q2 + 200_000 if q2 > 0 else 200_000], [3_000_000, 4_000_000]):
+                    rounds = rng.choice([3, 5])
+                    jobs.append({"id": len(jobs), "cmd": "resolve", "cfg": c, "steps": [step(tn, q2, amounts, rounds)], "compare_fresh": False})
+                    heads.append(case_event([tn], q2, amounts if tn not in TIGHT else [q2], c, rounds))
     return jobs, heads
 
 
@@ -330,8 +353,9 @@ def check_c20(tier, seed):
     core.build_driver()
     quick = tier == "quick"
     design(rep, quick)
-    tpls = ["out0", "out1", "out3_min2", "out5", "transfer", "transfer_min", "fail", "big_datum_tight", "optional_drop_min"]
-    targets = ["transfer_min", "out3_min2", "transfer", "out1", "fail", "optional_drop_min"]
+    tpls = ["out0", "out1", "out3_min2", "out5", "transfer", "transfer_min", "fail", "big_datum_tight", "optional_drop_min",
+            "optional_only_min"]
+    targets = ["transfer_min", "out3_min2", "transfer", "out1", "fail", "optional_drop_min", "optional_only_min"]
     qq = lambda xs: ", ".join('"%s"' % x for x in xs)  # noqa
     g = core.tlc_mc("MC_History", HIST_CFG.format(tpls=qq(tpls), targets=qq(targets), n=2 if quick else 3),
                     "c20_hist", workers=4, timeout=900)
@@ -345,15 +369,25 @@ def check_c20(tier, seed):
     jobs, heads = [], []
     c = cfg(44, 155381, None)
     q = 2_000_000
+    # quantities of the earlier resolutions and of the target: the same, or apart by one CBOR width step in either
+    # direction (the earlier transaction a few bytes longer or shorter than the target), or nothing sent at all
+    QS = [(q, q), (5_000_000_000, 4_000_000_000), (4_000_000_000, 5_000_000_000), (70_000, 60_000), (60_000, 70_000),
+          (300, 200), (20, 30), (0, q), (q, 0), (0, 0)]
     for case in g.cases + extra:
-        for amounts in ([50_000_000], [3_000_000, 2**32 + 2_400_000], [3_000_000]):
-            names = list(case["hist"]) + [case["target"]]
-            steps = [step(n, q, amounts) for n in names]
-            jobs.append({"id": len(jobs), "cmd": "resolve", "cfg": c, "steps": steps, "compare_fresh": True})
-            h = case_event(names, q, amounts, c, 3)
-            heads.append(h)
-            if case["hist"] and any("min" in n for n in names):
-                rep.distinct.add(core.digest([names, amounts]))
+        names = list(case["hist"]) + [case["target"]]
+        for (qh, qt) in (QS if case["hist"] else [(q, q), (0, 0)]):
+            for amounts in (([50_000_000], [3_000_000, 2**32 + 2_400_000], [3_000_000]) if (qh, qt) == (q, q) else ([2**34],)):
+                qs = [qh] * len(case["hist"]) + [qt]
+                steps = [step(n, qq_, amounts) for n, qq_ in zip(names, qs)]
+                jobs.append({"id": len(jobs), "cmd": "resolve", "cfg": c, "steps": steps, "compare_fresh": True})
+                h = case_event(names, q, amounts, c, 3)
+                for t_, qq_, n_ in zip(h["tpls"], qs, names):
+                    t_["send"] = I(qq_)
+                if names[-1] in TIGHT:
+                    h["store"] = [{"ref": u["ref"], "lovelace": u["assets"][0]["n"]} for u in store([qt])]
+                heads.append(h)
+                if case["hist"] and any("min" in n for n in names):
+                    rep.distinct.add(core.digest([names, amounts, qh, qt]))
     rep.evaluations = len(jobs)
     tr, evs = run_jobs(jobs, heads, "c20", 8 if quick else 12)
     rep.add_trace(tr)
